@@ -22,6 +22,15 @@
 //!   through several calls: `i<a>:<b>` insert, `u<h>:<a>:<b>` update, `x<h>` retract, `F` fire_all, `Z` reset.
 //!   What survives between two fire_all calls is the agenda (pending activations, fired-rule set, focus).
 //! obs := `ok tok …`, one token per call: `i<handle>` | `u<0|1>` | `x<0|1>` | `F<fired, run-length encoded>` | `z`; `hang`; panic:…
+//!
+//! named-rule-set case := `M <T|U> <rules> <a>:<b> <op> …` — ONE TypedReteUlEngine (T) / ReteUlEngine (U) whose rules carry explicit
+//!   NAMES (the same name may be registered several times), driven through several calls.  rule =
+//!   `name:prio:noloop:ck:limit:ak:inc:mk` (`when C.<ck> < limit then C.<ak> += inc`, and when mk ≠ `-` the action also sets the
+//!   fact `N<mk>_fired = true`: a marker that appears DURING a cycle); rule names are "N<name>".
+//!   ops: `F` fire_all, `Z` reset_fired_flags, `s<a>:<b>` set_fact C.a / C.b, `k<n>` set_fact `N<n>_fired = true` from outside.
+//! obs := `ok tok …`, one token per call: `F<fired, run-length encoded>/<a>/<b>` | `z` | `s` | `k`; `hang`; panic:…
+//!   `M I <rules> - <op> …` — ONE IncrementalEngine with the same NAMED rules (ak / inc / mk unused: no-op actions, facts of type
+//!   C), ops and observation tokens as in the `H` cases (`i<a>:<b>` `u<h>:<a>:<b>` `x<h>` `F` `Z`), names printed as "N<name>".
 use rre_harness::*;
 use rust_rule_engine::rete::agenda::{Activation, AdvancedAgenda, ConflictResolutionStrategy};
 use rust_rule_engine::rete::facts::{FactValue, TypedFacts};
@@ -241,14 +250,15 @@ fn cfact(a: i64, b: i64) -> TypedFacts {
 
 /// one engine, many calls (under the same watchdog as the single-call engine cases: the whole history shares the
 /// action budget and the deadline)
-fn exec_history(rules: Vec<CRule>, ops: Vec<String>) -> String {
+fn exec_history(rules: Vec<CRule>, names: Option<Vec<u64>>, ops: Vec<String>) -> String {
     guarded(move |count| {
         let mut e = IncrementalEngine::new();
         for (i, r) in rules.iter().enumerate() {
             let node = ReteUlNode::UlAlpha(AlphaNode { field: key(r.ck).into(), operator: "<".into(), value: r.limit.to_string() });
             let cnt = count.clone();
+            let name = match &names { Some(ns) => format!("N{}", ns[i]), None => format!("R{}", i) };
             e.add_rule(
-                TypedReteUlRule { name: format!("R{}", i), node, priority: r.prio, no_loop: r.no_loop,
+                TypedReteUlRule { name, node, priority: r.prio, no_loop: r.no_loop,
                     action: Arc::new(move |_f: &mut TypedFacts, _r| { tick(&cnt); }) },
                 vec!["C".to_string()],
             );
@@ -279,17 +289,109 @@ fn exec_history(rules: Vec<CRule>, ops: Vec<String>) -> String {
     })
 }
 
+#[derive(Clone)]
+struct NRule { name: u64, r: CRule, mk: Option<u64> }
+
+fn parse_nrules(s: &str) -> Option<Vec<NRule>> {
+    if s == "-" { return Some(vec![]); }
+    s.split(',').map(|r| {
+        let p: Vec<&str> = r.split(':').collect();
+        if p.len() != 8 { return None; }
+        Some(NRule { name: p[0].parse().ok()?, mk: opt(p[7])?,
+            r: CRule { prio: p[1].parse().ok()?, no_loop: p[2] == "1", ck: p[3] == "1", limit: p[4].parse().ok()?, ak: p[5] == "1", inc: p[6].parse().ok()? } })
+    }).collect()
+}
+
+enum MapEngine { T(TypedReteUlEngine), U(ReteUlEngine) }
+
+/// one map engine with NAMED rules (duplicate names allowed), many calls, under the watchdog
+fn exec_named(kind: String, rules: Vec<NRule>, init: (i64, i64), ops: Vec<String>) -> String {
+    guarded(move |count| {
+        let mut e = match kind.as_str() { "T" => MapEngine::T(TypedReteUlEngine::new()), "U" => MapEngine::U(ReteUlEngine::new()), _ => return "bad-case".into() };
+        for nr in &rules {
+            let r = &nr.r;
+            let node = ReteUlNode::UlAlpha(AlphaNode { field: key(r.ck).into(), operator: "<".into(), value: r.limit.to_string() });
+            let (ak, inc, cnt, mk) = (r.ak, r.inc, count.clone(), nr.mk);
+            match &mut e {
+                MapEngine::T(e) => e.add_rule_with_action(format!("N{}", nr.name), node, r.prio, r.no_loop, move |f: &mut TypedFacts, _| {
+                    tick(&cnt);
+                    let v = f.get(key(ak)).and_then(|v| v.as_integer()).unwrap_or(0);
+                    f.set(key(ak), FactValue::Integer(v + inc));
+                    if let Some(k) = mk { f.set(format!("N{}_fired", k), true); }
+                }),
+                MapEngine::U(e) => e.add_rule_with_action(format!("N{}", nr.name), node, r.prio, r.no_loop, move |f: &mut HashMap<String, String>| {
+                    tick(&cnt);
+                    let v: i64 = f.get(key(ak)).and_then(|v| v.parse().ok()).unwrap_or(0);
+                    f.insert(key(ak).to_string(), (v + inc).to_string());
+                    if let Some(k) = mk { f.insert(format!("N{}_fired", k), "true".to_string()); }
+                }),
+            }
+        }
+        let set = |e: &mut MapEngine, k: &str, v: i64| match e {
+            MapEngine::T(e) => e.set_fact(k, v),
+            MapEngine::U(e) => e.set_fact(k.to_string(), v.to_string()),
+        };
+        set(&mut e, "C.a", init.0);
+        set(&mut e, "C.b", init.1);
+        let mut toks = vec!["ok".to_string()];
+        for op in &ops {
+            let tok = match op.as_bytes()[0] {
+                b'F' if op == "F" => match &mut e {
+                    MapEngine::T(e) => {
+                        let fired = e.fire_all();
+                        let g = |k: &str| e.get_fact(k).and_then(|v| v.as_integer()).map(|v| v.to_string()).unwrap_or("?".into());
+                        format!("F{}/{}/{}", rle(&fired), g("C.a"), g("C.b"))
+                    }
+                    MapEngine::U(e) => {
+                        let fired = e.fire_all();
+                        let g = |k: &str| e.get_fact(k).cloned().unwrap_or("?".into());
+                        format!("F{}/{}/{}", rle(&fired), g("C.a"), g("C.b"))
+                    }
+                },
+                b'Z' if op == "Z" => { match &mut e { MapEngine::T(e) => e.reset_fired_flags(), MapEngine::U(e) => e.reset_fired_flags() }; "z".to_string() }
+                b's' => match op[1..].split_once(':').and_then(|(a, b)| Some((a.parse::<i64>().ok()?, b.parse::<i64>().ok()?))) {
+                    Some((a, b)) => { set(&mut e, "C.a", a); set(&mut e, "C.b", b); "s".to_string() }
+                    None => return "bad-case".into(),
+                },
+                b'k' => match op[1..].parse::<u64>() {
+                    Ok(n) => {
+                        match &mut e {
+                            MapEngine::T(e) => e.set_fact(format!("N{}_fired", n), true),
+                            MapEngine::U(e) => e.set_fact(format!("N{}_fired", n), "true".to_string()),
+                        }
+                        "k".to_string()
+                    }
+                    _ => return "bad-case".into(),
+                },
+                _ => return "bad-case".into(),
+            };
+            toks.push(tok);
+        }
+        toks.join(" ")
+    })
+}
+
 fn exec(case: &str) -> String {
     let t: Vec<&str> = case.split_whitespace().collect();
     match t.first().copied() {
         Some("A") => exec_agenda(&t[1..]),
         Some("H") if t.len() >= 2 => {
             let Some(rules) = parse_rules(t[1]) else { return "bad-case".into() };
-            exec_history(rules, t[2..].iter().map(|s| s.to_string()).collect())
+            exec_history(rules, None, t[2..].iter().map(|s| s.to_string()).collect())
         }
         Some("E") if t.len() == 4 => {
             let (Some(rules), Some(facts)) = (parse_rules(t[2]), parse_facts(t[3])) else { return "bad-case".into() };
             exec_engine(t[1], rules, facts)
+        }
+        Some("M") if t.len() >= 4 && t[1] == "I" => {
+            let Some(rules) = parse_nrules(t[2]) else { return "bad-case".into() };
+            let names = rules.iter().map(|r| r.name).collect();
+            exec_history(rules.into_iter().map(|r| r.r).collect(), Some(names), t[4..].iter().map(|s| s.to_string()).collect())
+        }
+        Some("M") if t.len() >= 4 => {
+            let (Some(rules), Some(facts)) = (parse_nrules(t[2]), parse_facts(t[3])) else { return "bad-case".into() };
+            if facts.len() != 1 { return "bad-case".into(); }
+            exec_named(t[1].to_string(), rules, facts[0], t[4..].iter().map(|s| s.to_string()).collect())
         }
         _ => "bad-case".into(),
     }
@@ -419,11 +521,130 @@ fn gen_history(rng: &mut Rng) -> String {
     format!("H {} {}", rules.join(","), ops.join(" "))
 }
 
+/// family "one rule NAME registered several times": 1..3 names, the first one (usually) registered 2..3 times — the same rule
+/// added twice, or variants with the same / a different salience, mostly all no-loop, sometimes with mixed no-loop flags — on
+/// each of the three engines, driven through 2..4 fire_all calls with resets (`reset_fired_flags` / `reset`), fact changes and
+/// (map engines) `<name>_fired` markers set from outside or by another rule's action DURING a cycle in between.  No-loop is
+/// tracked by NAME in all three engines; the oracle judges "at most once between resets" per name.
+fn gen_named(rng: &mut Rng) -> String {
+    let kind = *rng.pick(&["T", "T", "U", "U", "I"]);
+    let nnames = *rng.pick(&[1u64, 1, 2, 2, 3]);
+    let mut regs: Vec<(u64, bool)> = Vec::new(); // (name, no_loop)
+    for name in 0..nnames {
+        let copies = if name == 0 { *rng.pick(&[2u64, 2, 2, 3, 3, 1]) } else { *rng.pick(&[1u64, 1, 2]) };
+        let all_no_loop = rng.chance(3, 4);
+        let none_no_loop = !all_no_loop && rng.chance(1, 3);
+        for _ in 0..copies {
+            regs.push((name, all_no_loop || (!none_no_loop && rng.chance(1, 2))));
+        }
+    }
+    rng.shuffle(&mut regs);
+    if kind == "I" {
+        // no-op actions: every matching registration without no-loop is a runaway (1000 firings, each re-creating one activation
+        // per matching (registration, fact) pair) — keep those histories small: half of the I cases are all no-loop, the others
+        // have at most 4 registrations, one fact and at most three fire_all calls
+        if rng.chance(1, 2) { for r in regs.iter_mut() { r.1 = true; } } else { regs.truncate(4); }
+    }
+    let heavy = kind == "I" && regs.iter().any(|r| !r.1);
+    // IncrementalEngine: pairwise distinct priorities (as in the `E I` / `H` cases); map engines: ties are fine (stable sort)
+    let mut prios: Vec<i64> = vec![-7, -1, 0, 3, 10, 50, 70, i32::MAX as i64, i32::MIN as i64];
+    rng.shuffle(&mut prios);
+    let same_sal = rng.chance(1, 3);
+    let mut rules = Vec::new();
+    let mut runaways = 0;
+    for (i, (name, nl)) in regs.iter().enumerate() {
+        let prio = if kind == "I" { prios[i] } else if same_sal { 0 } else if rng.chance(1, 2) { prios[i] } else { *rng.pick(&[0i64, 1, 5]) };
+        let always = *rng.pick(&[1_000_000_000i64, 1_000_000_000, 150]);
+        let mut limit = if rng.chance(2, 3) { always } else { rng.range(1, 8) as i64 };
+        // at most one always-true registration without no-loop (the call then really runs to its bound)
+        // (IncrementalEngine: a runaway call grows the agenda by one activation per matching registration and firing — rarer)
+        if !*nl && limit >= 150 { runaways += 1; if runaways > 1 || (kind == "I" && !rng.chance(1, 3)) { limit = rng.range(1, 8) as i64; } }
+        let (ak, inc, mk) = if kind == "I" { (0, 0, "-".to_string()) } else {
+            (rng.below(2), *rng.pick(&[0i64, 1, 1, 1, 2]), if rng.chance(1, 6) { rng.below(nnames).to_string() } else { "-".into() })
+        };
+        rules.push(format!("{}:{}:{}:{}:{}:{}:{}:{}", name, prio, if *nl { 1 } else { 0 }, rng.below(2), limit, ak, inc, mk));
+    }
+    let fact = |rng: &mut Rng| format!("{}:{}", rng.below(6), rng.below(6));
+    let mut ops: Vec<String> = Vec::new();
+    let init;
+    if kind == "I" {
+        init = "-".to_string();
+        let mut inserted = 1u64;
+        ops.push(format!("i{}", fact(rng)));
+        if !heavy && rng.chance(1, 3) { ops.push(format!("i{}", fact(rng))); inserted += 1; }
+        ops.push("F".into());
+        for _ in 0..*rng.pick(if heavy { &[1u64, 1, 1, 2, 2] } else { &[1u64, 1, 2, 2, 3] }) {
+            if rng.chance(1, 3) { ops.push("Z".into()); }
+            match rng.below(6) {
+                0 | 1 if inserted < 2 && !heavy => { ops.push(format!("i{}", fact(rng))); inserted += 1; }
+                5 if inserted > 1 => ops.push(format!("x{}", rng.range(1, inserted))),
+                _ => ops.push(format!("u{}:{}", rng.range(1, inserted), fact(rng))),
+            }
+            ops.push("F".into());
+        }
+    } else {
+        init = fact(rng);
+        if rng.chance(1, 8) { ops.push(format!("k{}", rng.below(nnames))); }
+        ops.push("F".into());
+        for _ in 0..*rng.pick(&[1u64, 1, 2, 2, 3]) {
+            if rng.chance(2, 5) { ops.push("Z".into()); }
+            if rng.chance(1, 3) { ops.push(format!("s{}", fact(rng))); }
+            if rng.chance(1, 8) { ops.push(format!("k{}", rng.below(nnames))); }
+            ops.push("F".into());
+        }
+    }
+    format!("M {} {} {} {}", kind, rules.join(","), init, ops.join(" "))
+}
+
+/// family "an OLDER pending activation has gone stale before fire_all": one IncrementalEngine, 1..3 rules (mostly no-loop), 2..3
+/// facts inserted, then — before the first fire_all, or after a reset — the older fact(s) are retracted or updated so that they no
+/// longer match while a younger fact still does; the dropped activation must not consume the rule (liveness clause `liveOk`:
+/// every rule with an eligible pending activation fires).
+fn gen_stale(rng: &mut Rng) -> String {
+    let mut prios: Vec<i64> = vec![-7, -1, 0, 3, 10, 50];
+    rng.shuffle(&mut prios);
+    let nrules = *rng.pick(&[1usize, 1, 2, 2, 3]);
+    let mut rules = Vec::new();
+    for i in 0..nrules {
+        let limit = if rng.chance(1, 3) { *rng.pick(&[1_000_000_000i64, 150]) } else { rng.range(2, 6) as i64 };
+        rules.push(format!("{}:{}:{}:{}:0:0", prios[i], if rng.chance(11, 12) { 1 } else { 0 }, rng.below(2), limit));
+    }
+    let low = |rng: &mut Rng| format!("{}:{}", rng.below(2), rng.below(2));   // matches every generated limit
+    let high = |rng: &mut Rng| format!("{}:{}", rng.range(6, 9), rng.range(6, 9)); // matches only the always-true limits
+    let nfacts = rng.range(2, 3);
+    let mut ops: Vec<String> = Vec::new();
+    for _ in 0..nfacts { ops.push(format!("i{}", if rng.chance(5, 6) { low(rng) } else { high(rng) })); }
+    let spoil = |rng: &mut Rng, ops: &mut Vec<String>, live: &mut Vec<u64>| {
+        // spoil one or two facts, mostly the oldest
+        for _ in 0..rng.range(1, 2) {
+            if live.len() < 2 { break; }
+            let k = if rng.chance(3, 4) { 0 } else { rng.below(live.len() as u64) as usize };
+            let h = live[k];
+            if rng.chance(1, 2) { ops.push(format!("x{}", h)); live.remove(k); } else { ops.push(format!("u{}:{}", h, high(rng))); }
+        }
+    };
+    let mut live: Vec<u64> = (1..=nfacts).collect();
+    if rng.chance(1, 4) { ops.push("F".into()); ops.push("Z".into()); ops.push(format!("u{}:{}", live[live.len() - 1], low(rng))); }
+    spoil(rng, &mut ops, &mut live);
+    ops.push("F".into());
+    if rng.chance(1, 2) {
+        if rng.chance(1, 2) { ops.push("Z".into()); }
+        ops.push(format!("u{}:{}", rng.pick(&live), low(rng)));
+        if rng.chance(1, 2) { spoil(rng, &mut ops, &mut live); }
+        ops.push("F".into());
+    }
+    format!("H {} {}", rules.join(","), ops.join(" "))
+}
+
 fn gen(rng: &mut Rng, n: usize, _tier: &str) -> Vec<String> {
     let mut out = Vec::new();
     for i in 0..n {
         if i % 8 == 7 { out.push(gen_engine(rng)); } else if i % 32 == 3 { out.push(gen_history(rng)); } else { out.push(gen_agenda(rng)); }
     }
+    // the named-rule-set family comes on top of the n cases (own stream: the cases above stay what they were)
+    let mut r2 = Rng::new(rng.next() ^ 0x4e41_4d45_4421);
+    for _ in 0..n / 16 { out.push(gen_named(&mut r2)); }
+    for _ in 0..n / 32 { out.push(gen_stale(&mut r2)); }
     out
 }
 
@@ -449,6 +670,28 @@ fn shrink(case: &str) -> Vec<String> {
             if facts.len() > 1 {
                 for v in shrink_list(&facts) { if !v.is_empty() { out.push(format!("E {} {} {}", t[1], t[2], v.join(","))); } }
             }
+            out
+        }
+        Some("M") if t.len() >= 4 => {
+            let rules: Vec<&str> = t[2].split(',').collect();
+            let head = format!("M {} ", t[1]);
+            let mut out: Vec<String> = shrink_list(&t[4..]).into_iter().map(|v| format!("{}{} {} {}", head, t[2], t[3], v.join(" "))).collect();
+            if rules.len() > 1 {
+                for v in shrink_list(&rules) { if !v.is_empty() { out.push(format!("{}{} {} {}", head, v.join(","), t[3], t[4..].join(" "))); } }
+            }
+            // simpler rules: no marker, salience 0, increment 0
+            for (i, r) in rules.iter().enumerate() {
+                let p: Vec<&str> = r.split(':').collect();
+                if p.len() != 8 { continue; }
+                for (k, v) in [(7usize, "-"), (1, "0"), (6, "0"), (3, "0"), (5, "0")] {
+                    if p[k] != v {
+                        let mut q = p.clone(); q[k] = v;
+                        let mut rs = rules.clone(); let qq = q.join(":"); rs[i] = &qq;
+                        out.push(format!("{}{} {} {}", head, rs.join(","), t[3], t[4..].join(" ")));
+                    }
+                }
+            }
+            if t[3] != "-" && t[3] != "0:0" { out.push(format!("{}{} 0:0 {}", head, t[2], t[4..].join(" "))); }
             out
         }
         _ => vec![],
